@@ -5,7 +5,7 @@ whether (and how) the check noticed.  /repo must be clean before; it is restored
 (`git -C /repo checkout -- .`).  Never commits anything in /repo."""
 import json, os, subprocess, sys, glob, re
 ROOT = os.path.dirname(os.path.dirname(os.path.abspath(__file__)))
-REPO = "/repo"
+REPO = os.environ.get("LMV_REPO", "/repo")
 
 def sh(cmd, **kw):
     return subprocess.run(cmd, stdout=subprocess.PIPE, stderr=subprocess.STDOUT, text=True, **kw)
